@@ -220,9 +220,11 @@ func (d *Driver) Open() (reterr error) {
 
 	select {
 	case <-d.done:
-		// opening again after a Close: the done signal of the previous session is used up
+		// opening again after a Close: the done signal of the previous session is used up, and the
+		// hello is framed with the 1.0 delimiter whatever the previous session had negotiated
 		d.done = make(chan bool)
 		d.closeOnce = sync.Once{}
+		d.Channel.PromptPattern = getNetconfPatterns().v1Dot0Delim
 	default:
 	}
 
